@@ -145,11 +145,13 @@ def main():
         cli(sys.argv)
 
     except ValueError as e:
-        error_msg("DIMACS ERROR: " + str(e))
+        with msg_prefix('c '):
+            error_msg("DIMACS ERROR: " + str(e))
         sys.exit(-1)
 
     except CLIError as e:
-        error_msg(str(e))
+        with msg_prefix('c '):
+            error_msg(str(e))
         sys.exit(-1)
 
     except InternalBug as e:
@@ -164,7 +166,8 @@ def main():
 
     except OSError as e:
         # unreadable input or unwritable output is an error, not a success
-        error_msg("ERROR: " + str(e))
+        with msg_prefix('c '):
+            error_msg("ERROR: " + str(e))
         sys.exit(-1)
 
     # avoid signaling BrokenPipeError as whatnot
